@@ -169,7 +169,8 @@ func (g *Gen) accelPattern() *Tree {
 		var loop *Tree
 		switch g.pick(3) {
 		case 0:
-			loop = Rep(inner, 2+g.pick(2), 2+g.pick(2)+g.pick(2), g.chance(0.3))
+			mn := 2 + g.pick(2)
+			loop = Rep(inner, mn, mn+g.pick(3), g.chance(0.3))
 		case 1:
 			loop = Rep(Grp("", inner), 1+g.pick(2), -1, g.chance(0.3))
 		default:
@@ -416,9 +417,13 @@ func init() {
 			}
 			rec := RelRec{ID: id, P: p, O: o, Dia: dia, RTL: isRTL, Text: text, Exact: exact && !(*profile == "accel" && strings.Contains(text, `\G`) && false), Variant: *variant, Mode: findMode(reA), HasG: strings.Contains(text, `\G`), Cases: []RelCase{}}
 			modes[rec.Mode]++
+			probe := &specProbe{}
+			if rec.Exact {
+				probe = newSpecProbe(text, optBits(o, dia, isRTL))
+			}
 			for _, s := range g.Inputs(t, *ni, *maxLen, alpha) {
 				in := intsToRunes(s)
-				if cheapest(func() { reB.FindRunesMatch(in) }) > 60_000 {
+				if cheapest(func() { reB.FindRunesMatch(in) }) > 60_000 || probe.heavy(in, isRTL) {
 					skipped++
 					continue
 				}
